@@ -434,11 +434,11 @@ impl<'a> Cx<'a> {
         for a in attrs {
             if a.path().is_ident("cfg") {
                 let s = a.meta.require_list().map_err(|e| e.to_string())?.tokens.to_string();
-                let s: String = s.chars().filter(|c| !c.is_whitespace()).collect();
+                // (the tokens separated by single spaces, literals verbatim: check::text)
                 return match s.as_str() {
-                    "feature=\"nightly\"" => Ok(Some(None)),
-                    "feature=\"compact\"" => Ok(Some(Some(true))),
-                    "not(feature=\"compact\")" => Ok(Some(Some(false))),
+                    "feature = \"nightly\"" => Ok(Some(None)),
+                    "feature = \"compact\"" => Ok(Some(Some(true))),
+                    "not (feature = \"compact\")" => Ok(Some(Some(false))),
                     _ => err(a.span(), format!("unsupported #[cfg({})] on a statement", s)),
                 };
             }
@@ -960,15 +960,15 @@ impl<'a> Cx<'a> {
         if self.raw_mode || self.heap_mode {
             // rule 28: `VecType` / `Self` = `raw` (rule 31: `Self` = `HeapVec`); `bigint::Limb` = u64
             let own = if self.raw_mode { Ty::Raw } else { Ty::Hv };
-            let text: String = quote::quote!(#t).to_string().chars().filter(|c| !c.is_whitespace()).collect();
-            match text.trim_start_matches('&').trim_start_matches("mut") {
+            let text: String = crate::check::text(t);
+            match text.strip_prefix("& mut ").or_else(|| text.strip_prefix("& ")).unwrap_or(&text) {
                 "VecType" | "StackVec" if self.raw_mode => return Ok(Ty::Raw),
                 "HeapVec" if self.heap_mode => return Ok(Ty::Hv),
                 "Self" => return Ok(own),
-                "Option<Self>" => return Ok(Ty::Opt(Box::new(own))),
-                "bigint::Limb" => return Ok(Ty::Int(IntTy::U64)),
-                "Option<bigint::Limb>" => return Ok(Ty::Opt(Box::new(Ty::Int(IntTy::U64)))),
-                "[bigint::Limb]" => return Ok(Ty::Slice),
+                "Option < Self >" => return Ok(Ty::Opt(Box::new(own))),
+                "bigint :: Limb" => return Ok(Ty::Int(IntTy::U64)),
+                "Option < bigint :: Limb >" => return Ok(Ty::Opt(Box::new(Ty::Int(IntTy::U64)))),
+                "[bigint :: Limb]" => return Ok(Ty::Slice),
                 _ => {}
             }
         }
